@@ -385,7 +385,7 @@ def run_case(case):
                 spec = gen.gen_project(rng)
                 if rng.random() < 0.6:
                     spec = c10.add_hostility(rng, spec)
-                phases = gen.gen_history(rng, spec, nphase=rng.randint(1, 3))
+                phases = gen.gen_history(rng, spec, nphase=rng.randint(1, 3), breaks=0.2)
                 witness.update({"spec": spec, "phases": [p["edits"] for p in phases]})
                 files = gen.render(spec)
                 dropped = set()
